@@ -117,7 +117,7 @@ def run(ctx):
             seen[k] = seen.get(k, 0) + 1
             keep.append(s)
     events, meta = [], []
-    pgs = [[1, 1], [2, 1], [1, 2], [2, 2], [3, 2], [2, 3]]
+    pgs = [[1, 1], [2, 1], [1, 2], [2, 2], [3, 2], [2, 3], [4, 1], [3, 1]]
     for si, sp in enumerate(keep):
         L = 1
         for x in sp.ints:
@@ -126,7 +126,7 @@ def run(ctx):
             continue
         IL = [int(x * L) for x in sp.ints]
         a, h = (0.5, 0.25) if si % 2 else (-3.0, 2.0)
-        shape = [4, 3, 5, 0]
+        shape = [rng.choice([5, 7]), 3, 5, 0]        # radial extents whose uneven blocks are not all at the end (5 over 3, 7 over 4 ...)
         coeffs = [[[[rng.randint(-6, 6) for _ in range(sp.nb)] for _ in range(shape[2])] for _ in range(shape[1])] for _ in range(shape[0])]
         for nprocs in (pgs[si % len(pgs)], pgs[(si + 3) % len(pgs)]):
             for dtype, perturbed in ((float, False), (np.complex128, True)) if (si % 2 == 0) else ((np.complex128, False), (float, True)):
@@ -171,7 +171,7 @@ def run(ctx):
     for nprocs in pgs:
         n = int(np.prod(nprocs))
         out = [None] * n
-        res = MPI.run(n, equil_job, policy="random", seed=1, args=([6, 4, 6, 12], nprocs, None, out))
+        res = MPI.run(n, equil_job, policy="random", seed=1, args=([7, 4, 6, 12], nprocs, None, out))
         events.append({"k": "equil", "ok": bool(res.ok), "zero": bool(res.ok and all(v == 0.0 for v in out)), "err": res.describe()})
         meta.append({"what": "perturbed density of the equilibrium", "nprocs": nprocs, "max_abs": out})
     rej, _ = ctx.validate_trace("C16Trace", events, what="densities recorded from the real kernels / DensityFinder (%d)" % len(events))
